@@ -24,6 +24,17 @@ ALLOWED_CALLERS = {
 }
 
 
+def _window_method_with_own_bounds(body, t, callee):
+    """`self.parent.slice(self.start, self.end)` from another method of the window type that owns those bounds (an accessor such
+    as iter() that does what slice() does): still inside the window API, still the snapshot bounds"""
+    want = "circular_buffer::BufferReader" if callee == BUF_SLICE else "circular_buffer::BufferWriter"
+    if body.self_adt != want or body.kind == "closure" or len(t["args"]) < 3:
+        return False
+    from ..mir import self_field_path
+    a, b = self_field_path(body.operand_expr(t["args"][1])), self_field_path(body.operand_expr(t["args"][2]))
+    return a == ["start"] and b == ["end"]
+
+
 def rule_r1(facts, col):
     """raw memory is reachable only through the window API"""
     for callee, allowed in sorted(ALLOWED_CALLERS.items()):
@@ -33,6 +44,8 @@ def rule_r1(facts, col):
             key = "%s<-%s" % (callee.split("::")[-2] + "::" + callee.split("::")[-1], body.q)
             if body.q in allowed:
                 col.ok("C03.R1", key, body.where(bb), "allowed caller")
+            elif callee in (BUF_SLICE, BUF_SLICE_MUT) and _window_method_with_own_bounds(body, t, callee):
+                col.ok("C03.R1", key, body.where(bb), "another method of the same window type, called with the window's own (start, end)")
             else:
                 col.bad("C03.R1", key, body.where(bb),
                         "%s is called from %s: raw ring memory / window bounds escape the window API (allowed callers: %s)"
@@ -487,8 +500,10 @@ def rule_r12(facts, col, rule_id="C03.R12"):
 
 def run(ctx):
     facts = ctx.facts("default")
+    from . import c02
+    sfacts = c02.stream_view(facts)      # the ring's entry points with private helpers / lock-and-run closures substituted in
     rule_r1(facts, ctx)
-    rule_r2(facts, ctx)
+    rule_r2(sfacts, ctx)
     rule_r3(facts, ctx)
     n = witness.report(ctx, "C03.R4", "w_c03_r4_")
     rule_r5(facts, ctx)
@@ -499,14 +514,14 @@ def run(ctx):
     rule_r9(facts, ctx)
     ctx.floor("C03.R9", 4, "writes of rpos/used (consume) and wpos/used (produce)")
     from . import c02
-    c02.rule_r7(facts, ctx, rule_id="C03.R10")
+    c02.rule_r7(sfacts, ctx, rule_id="C03.R10")
     ctx.floor("C03.R10", 1, "atomic commit: tags under the lock acquisition that advances wpos")
     c01.rule_r4(facts, ctx, rule_id="C03.R8")
     from . import c19
     # a release that is not checked against the fill level (`consume_all()`: rpos = wpos, used = 0) frees samples the other side
     # committed after the window was taken: C01's refusal rule is a necessary condition of the sharing protocol too
     c01.rule_r1(facts, c19._Retag(ctx, "C01.R1", "C03.R11"))
-    c02.rule_r6(facts, ctx, rule_id="C03.R13")      # the consumer releases only tags of the interval it consumed (never the producer's newer ones)
+    c02.rule_r6(sfacts, ctx, rule_id="C03.R13")      # the consumer releases only tags of the interval it consumed (never the producer's newer ones)
     ctx.floor("C03.R13", 2, "tag removal bounded by both ends of the consumed interval (same rule as C02.R6)")
     ctx.floor("C03.R11", 4, "writes of the ring positions / fill level (same rule as C01.R1)")
     ctx.floor("C03.R8", 2, "consume and produce bodies write only their own position")
